@@ -70,13 +70,24 @@ def delete_branch(job: DeleteBranchJob):
     if job.settings.branch not in repo.remote_branches:
         raise exceptions.NothingToDo()
 
-    # do not allow deleting a branch if the archive tag is already there
-    if not isinstance(del_branch, HotfixBranch) and \
-       del_branch.version in repo.cmd('git tag').split('\n')[:-1]:
-        raise exceptions.JobFailure('Cannot delete branch %r because there is '
-                                    'already an archive tag %r in the '
-                                    'repository.' %
-                                    (del_branch, del_branch.version))
+    archive_tag = del_branch.version
+    if isinstance(del_branch, HotfixBranch):
+        archive_tag = archive_tag + '.archived_hotfix_branch'
+
+    # do not allow deleting a branch if the archive tag is already there,
+    # unless that tag archives this very branch: a previous deletion was
+    # interrupted between the push of the tag and the removal of the branch
+    # and is completed now
+    archived = False
+    if archive_tag in repo.cmd('git tag').split('\n')[:-1]:
+        del_branch.checkout()
+        tagged = repo.cmd('git rev-list -n 1 %s' % archive_tag).rstrip()
+        if tagged != del_branch.get_latest_commit():
+            raise exceptions.JobFailure('Cannot delete branch %r because '
+                                        'there is already an archive tag %r '
+                                        'in the repository.' %
+                                        (del_branch, archive_tag))
+        archived = True
 
     # do not allow deleting a dev branch if there is a stab
     if not isinstance(del_branch, StabilizationBranch) and \
@@ -99,13 +110,11 @@ def delete_branch(job: DeleteBranchJob):
         del_queue = QueueBranch(repo, 'q/%s' % del_branch.version)
         do_delete(del_queue)
 
-    archive_tag = del_branch.version
-    if isinstance(del_branch, HotfixBranch):
-        archive_tag = archive_tag + '.archived_hotfix_branch'
     try:
-        del_branch.checkout()
-        repo.cmd('git tag %s' % archive_tag)
-        repo.cmd('git push origin %s' % archive_tag)
+        if not archived:
+            del_branch.checkout()
+            repo.cmd('git tag %s' % archive_tag)
+            repo.cmd('git push origin %s' % archive_tag)
     except CommandError:
         raise exceptions.JobFailure('Unable to push new tag, '
                                     'keep pushing.')
